@@ -44,7 +44,7 @@ var checks = map[string]*Check{
 			{World: "C01/faulty", Weight: 2},
 			{World: "C01/restart", Weight: 2},
 		},
-		Probes:      []string{"concurrent_clients", "keepalive_followup_request", "unannounced_trailers", "requests_after_proxy_restart"},
+		Probes:      []string{"concurrent_clients", "keepalive_followup_request", "unannounced_trailers", "requests_after_proxy_restart", "clients_hang_up_mid_response_before_the_others_start"},
 		Rule:        "Workload: 2..8 (thorough: ..48) concurrent clients with unique tokens in path, query, header and body; sizes across buffer boundaries; backend latency per request; a quarter of the clients send a follow-up request on their kept-alive connection; oracle compares status/header/body/trailer against the client's own token and counts backend invocations per token.",
 		Assumptions: commonAssumptions,
 		RealStub:    coreRealStub,
@@ -58,21 +58,21 @@ var checks = map[string]*Check{
 			{World: "C04b/faulty", Weight: 2},
 			{World: "C04b", Race: true, Weight: 1},
 		},
-		Probes:      []string{"id_listed_more_than_once", "concurrent_pollers", "window_relist", "relisted_every_time", "poller_aborted", "half_closed_poller", "backend_reset_after_executing_post_on_reused_connection", "proxy_outage_of_many_polls", "burst_of_waiting_requests"},
+		Probes:      []string{"id_listed_more_than_once", "concurrent_pollers", "window_relist", "relisted_every_time", "poller_aborted", "half_closed_poller", "backend_reset_after_executing_post_on_reused_connection", "proxy_outage_of_many_polls", "burst_of_waiting_requests", "shim_open_requests_among_the_listed_ids"},
 		Rule:        "(a) real agent vs scripted fake proxy: pending-list replies repeat/permute/overlap 2..12 (thorough ..60) request IDs, plus a dedup-window leg re-listing an ID after up to 998 other IDs; counting backend; fetch/upload 5xx in the faulty leg. (b) real proxy with 2..5 concurrent harness pollers (some abandoning the list call) and 2..10 (..40) clients; every ID must be reported in exactly one list reply. Faulty leg also: a backend that executes a body-less POST and then resets the reused connection before answering (the request must not be sent again); an ID whose fetch answer is slow while the ID is listed again.",
 		Assumptions: commonAssumptions,
 		RealStub:    coreRealStub,
 	},
 	"C05": {
 		Legs:        []Leg{{World: "C05", Weight: 1}},
-		Probes:      []string{"body_larger_than_buffers", "lockstep_multi_chunk", "through_wrapped_handler_chain", "declared_length_multi_chunk", "retry_while_streaming", "trickle_of_tiny_chunks", "upload_refused_before_response_started", "upload_starts_while_vm_identity_refresh_stalls", "stream_over_aged_http2_backend_connection", "shutdown_signal_while_streaming"},
+		Probes:      []string{"body_larger_than_buffers", "lockstep_multi_chunk", "through_wrapped_handler_chain", "declared_length_multi_chunk", "retry_while_streaming", "trickle_of_tiny_chunks", "upload_refused_before_response_started", "upload_starts_while_vm_identity_refresh_stalls", "stream_over_aged_http2_backend_connection", "shutdown_signal_while_streaming", "other_streams_open_when_the_stream_starts"},
 		Rule:        "Real agent vs fake proxy that decodes the upload incrementally; lock-step backend flushes chunk i+1 only after the proxy saw chunk i; 1..12 (thorough ..200) chunks of 1 B..70 KiB (thorough ..2 MiB), pauses, agent handler chain drawn per run (sessions / banner / shim wrappers on or off), backend framing chunked or with a declared Content-Length, SimNet buffer sizes 1..256 KiB, latency 0..200 ms. Each chunk must be visible within 2 s + network time.",
 		Assumptions: commonAssumptions,
 		RealStub:    coreRealStub,
 	},
 	"C08": {
 		Legs:        []Leg{{World: "C08", Weight: 1}},
-		Probes:      []string{"backoff_measured", "reached_cap", "direct_evaluation", "requests_in_flight_while_polls_fail", "agent_on_a_vm"},
+		Probes:      []string{"backoff_measured", "reached_cap", "direct_evaluation", "requests_in_flight_while_polls_fail", "agent_on_a_vm", "agent_without_proxy_timeout"},
 		Rule:        "Real agent polling loop vs fake proxy with scripted list failures (5xx, 404, garbled JSON, truncated body, refused dial, hang until the 60 s client timeout) in runs of 1..16 (sometimes ..80) consecutive failures separated by successes; zero network latency so the gap is the back-off sleep; envelope 0.9..1.1 x min(2^k ms, 3 s). Retry counts the loop cannot reach (2^32, max uint, ...) are evaluated by direct calls (reported as probe direct_evaluation, not as simulated runs).",
 		Assumptions: commonAssumptions,
 		RealStub:    coreRealStub,
@@ -86,7 +86,7 @@ var checks = map[string]*Check{
 	},
 	"C09": {
 		Legs:        []Leg{{World: "C09", Weight: 1}},
-		Probes:      []string{"forged_user_id_with_forwarding", "authorization_with_stripping", "websocket_handshake_seen", "user_id_named_hop_by_hop_by_client", "identity_with_escapes", "upgrade_request_naming_the_user_id", "empty_identity_with_forged_header", "header_name_followed_by_space"},
+		Probes:      []string{"forged_user_id_with_forwarding", "authorization_with_stripping", "websocket_handshake_seen", "user_id_named_hop_by_hop_by_client", "identity_with_escapes", "upgrade_request_naming_the_user_id", "empty_identity_with_forged_header", "header_name_followed_by_space", "shim_open_url_with_user_info"},
 		Rule:        "Real agent with all four combinations of -forward-user-id / -strip-credentials x shim x sessions vs fake proxy asserting a user per request and serving client requests that carry forged, repeated and odd-case X-Inverting-Proxy-User-ID and Authorization fields (also named in the client's Connection header), asserted identities containing + and %XX; 2..6 requests of several users in flight at once; plain HTTP and shim open (websocket handshake) observed at a recording backend.",
 		Assumptions: commonAssumptions,
 		RealStub:    coreRealStub,
@@ -97,14 +97,14 @@ var checks = map[string]*Check{
 			{World: "C06/nofault", Weight: 1},
 			{World: "C06", Race: true, Weight: 2},
 		},
-		Probes:      []string{"early_5xx_while_body_streaming", "retry_attempt_seen", "backend_answers_late"},
+		Probes:      []string{"early_5xx_while_body_streaming", "retry_attempt_seen", "backend_answers_late", "agent_on_a_vm"},
 		Rule:        "Real agent (response forwarder + http.Transport) vs a byte-level fake proxy: per upload attempt a scripted fault {5xx, reset, close, none} at a byte offset of the raw request stream (header block, body offset 0/1/around 4096/anywhere/after the terminating chunk), 5xx answered while the body is still streaming with or without draining; response sizes placing the serialised upload around the 4096-byte replay buffer, tiny and large; SimNet buffers 512 B..64 KiB park the previous attempt's body writer. Oracle: every acknowledged complete attempt parses to exactly the backend's response; at most 3 attempts; no forwarder goroutine blocked at the end. The backend may answer only after 2 s / 20 s (every upload attempt may have failed by then: nothing of the finished upload may stay blocked).",
 		Assumptions: commonAssumptions,
 		RealStub:    coreRealStub,
 	},
 	"C02": {
 		Legs:        []Leg{{World: "C02", Weight: 5}, {World: "C02/slow", Weight: 2}, {World: "C02/bfault", Weight: 2}},
-		Probes:      []string{"body_at_least_4096", "escaped_target", "custom_fields", "agent_with_shim_mounted"},
+		Probes:      []string{"body_at_least_4096", "escaped_target", "custom_fields", "agent_with_shim_mounted", "request_with_expect_continue"},
 		Rule:        "Raw TCP client (exact bytes, tape-chosen write sizes and pauses) -> real proxy -> real agent -> raw recording backend with an independent wire parser; 1..4 requests in flight; generated methods (incl. extension tokens), origin-form targets with escapes / dot segments / queries without ';', Host variants, 0..8 header fields with repeats, empty and long values, hop-by-hop fields, bodies 0..70 KiB (thorough ..5 MiB) by Content-Length or chunked; SimNet segmentation up to 1-byte segments. Input-dominated: the simulator contributes segmentation, pauses and concurrent traffic.",
 		Assumptions: commonAssumptions,
 		RealStub:    coreRealStub,
@@ -125,7 +125,7 @@ var checks = map[string]*Check{
 	},
 	"C12": {
 		Legs:        []Leg{{World: "C12", Weight: 3}, {World: "C12", Race: true, Weight: 2}},
-		Probes:      []string{"concurrent_calls", "double_close_same_instant", "data_racing_close", "backend_closed_first", "odd_message_types", "backend_ignores_closing_handshake", "overlapping_opens", "stalled_backend_on_other_session", "data_after_backend_closed", "batch_with_a_bad_session_entry"},
+		Probes:      []string{"concurrent_calls", "double_close_same_instant", "data_racing_close", "backend_closed_first", "odd_message_types", "backend_ignores_closing_handshake", "overlapping_opens", "stalled_backend_on_other_session", "data_after_backend_closed", "batch_with_a_bad_session_entry", "open_against_backend_that_never_answers_the_handshake", "shim_posts_without_content_length"},
 		Rule:        "1..2 shim sessions and 2..10 data/poll/close calls with valid, unknown, malformed and empty arguments, most of them issued at the same simulated instant so that the scheduler interleaves them at the yield points inside the shim handlers and the connection (data vs close, close vs close, poll vs backend close); in a third of the runs the backend sends 0..14 messages and closes first. Every call must be answered with 200/400/408/500; calls after an answered close must get 400; crash monitor + race-detector leg. Also: overlapping opens against a slow handshake, a backend that ignores the closing handshake, a data call seconds after the backend closed (must be 400 when nothing was queued), and a second session whose calls must be answered while the first session's backend has stopped reading.",
 		Assumptions: commonAssumptions,
 		RealStub:    coreRealStub,
@@ -146,21 +146,21 @@ var checks = map[string]*Check{
 	},
 	"C14": {
 		Legs:        []Leg{{World: "C14", Weight: 1}},
-		Probes:      []string{"shim_script_injected", "banner_frame_served", "non_html_untouched", "already_framed_original_body", "head_straddles_first_kilobyte", "interim_1xx", "encoded_body_passed_through", "html_body_starts_late"},
+		Probes:      []string{"shim_script_injected", "banner_frame_served", "non_html_untouched", "already_framed_original_body", "head_straddles_first_kilobyte", "interim_1xx", "encoded_body_passed_through", "html_body_starts_late", "two_navigations_to_one_path_with_different_queries"},
 		Rule:        "Raw client -> real proxy -> real agent with -inject-banner and/or -shim-websockets -> raw scripted backend; the backend's own response is the reference. Generated: method, Accept, Sec-Fetch-Dest/Mode, Referer; status; Content-Type from unambiguous HTML and non-HTML families; Content-Disposition; bodies with <head> at offsets around 0 and the first kilobyte, repeated, upper-case or truncated; backend write boundaries through <head>; SimNet segmentation up to 80%. Input-dominated; the simulated dimension is how the body is split across reads.",
 		Assumptions: commonAssumptions,
 		RealStub:    coreRealStub,
 	},
 	"C07": {
 		Legs:        []Leg{{World: "C07", Weight: 3}, {World: "C07fp", Weight: 3}, {World: "C07", Race: true, Weight: 2}, {World: "C07fp", Race: true, Weight: 1}},
-		Probes:      []string{"failures_among_healthy_requests", "backend_unreachable_502", "shim_enabled", "proxy_side_failures_among_healthy_requests", "http2_backend_unreachable"},
+		Probes:      []string{"failures_among_healthy_requests", "backend_unreachable_502", "shim_enabled", "proxy_side_failures_among_healthy_requests", "http2_backend_unreachable", "shim_posts_without_content_length"},
 		Rule:        "(real-proxy leg) 2..8 healthy concurrent requests next to 1..5 sabotaged ones: backend reset before headers / mid body, close mid chunk, garbage instead of HTTP, malformed header or chunk, hang then close, malformed shim input (open/data/poll/close) when the shim is on; then a window with every backend dial refused (client must get 502); then a probe. (fake-proxy leg) pending lists with 5xx / garbled JSON / HTML / > 1 MB replies between good ones, fetches rejected, truncated, garbage, without or with a bad start time, reset; uploads rejected or reset - each for chosen request IDs only; healthy IDs and a later probe must be served. Crash monitor and race-detector legs. Shim sabotage also: data posts racing the close of the same session (with a backend that has stopped reading), a backend that says goodbye and hangs up before the first poll; fake-proxy leg: uploads answered early (400/503) while the response is still streaming.",
 		Assumptions: commonAssumptions,
 		RealStub:    coreRealStub,
 	},
 	"C15": {
 		Legs:        []Leg{{World: "C15", Weight: 3}, {World: "C15", Race: true, Weight: 1}},
-		Probes:      []string{"both_directions_at_once", "concurrent_connections", "stream_larger_than_64k", "passthrough_request", "server_speaks_first", "slow_reader_with_bulk_data", "orderly_end_of_both_directions", "slow_passthrough_upload", "reader_stalled_for_20s_with_data_backed_up", "websocket_leg_through_http_intermediary"},
+		Probes:      []string{"both_directions_at_once", "concurrent_connections", "stream_larger_than_64k", "passthrough_request", "server_speaks_first", "slow_reader_with_bulk_data", "orderly_end_of_both_directions", "slow_passthrough_upload", "reader_stalled_for_20s_with_data_backed_up", "client_embeds_the_bridge_as_a_library", "websocket_leg_through_http_intermediary", "intermediary_without_half_close"},
 		Rule:        "TCP clients -> real tcp-bridge-frontend main() -> websocket over SimNet through the real h2c-wrapped tcp-bridge-backend main() -> harness TCP server. 1..4 (thorough ..32) connections, per direction 0..6 writes of 0 B..70 KB (all 256 byte values), reader buffers 1 B..100 KB, both directions at once, SimNet buffers 1..64 KiB and segmentation up to 70%; plus plain HTTP POSTs to the bridge backend for the pass-through clause. Also: server-speaks-first connections, readers that stall for 1.5 s / 4 s, and connections on which both peers end their direction in an orderly way (half-close, read to the end, close) - nothing may be lost.",
 		Assumptions: commonAssumptions,
 		RealStub: map[string]string{
@@ -174,7 +174,7 @@ var checks = map[string]*Check{
 	},
 	"C16": {
 		Legs:        []Leg{{World: "C16", Weight: 1}},
-		Probes:      []string{"one_side_closed_first", "several_connections", "graceful_close_complete_data", "graceful_close_slow_reader_bulk_data", "tcp_server_down", "websocket_leg_through_http_intermediary"},
+		Probes:      []string{"one_side_closed_first", "several_connections", "graceful_close_complete_data", "graceful_close_slow_reader_bulk_data", "tcp_server_down", "next_hop_never_answers_the_handshake", "websocket_leg_through_http_intermediary", "intermediary_without_half_close"},
 		Rule:        "Same world as C15; per connection the client, the server or both close after their writes with a delay of 0..5 s relative to data in flight in either direction. Liveness in simulated time: the surviving peer must see end-of-stream within 60 s after having received everything sent before the close; SimNet's connection table is the counter for leaked bridge connections. Also: small socket buffers with both directions full when both peers go away (the bridge must still release everything), slow readers, peers that only half-closed earlier and must still receive the rest.",
 		Assumptions: commonAssumptions,
 		RealStub: map[string]string{
@@ -201,7 +201,7 @@ var checks = map[string]*Check{
 	},
 	"C18": {
 		Legs:        []Leg{{World: "C18", Weight: 1}},
-		Probes:      []string{"routed", "answered_404", "shared_fallback", "lookup_fault", "registrations_changed_between_lookups", "busy_backend_polls_return_at_once", "answered_then_backend_deleted_then_same_url", "owner_with_more_than_500_backends"},
+		Probes:      []string{"routed", "answered_404", "shared_fallback", "lookup_fault", "registrations_changed_between_lookups", "busy_backend_polls_return_at_once", "answered_then_backend_deleted_then_same_url", "owner_with_more_than_500_backends", "end_user_address_with_upper_case_letters"},
 		Rule:        "1..6 backends with 1..3 prefixes each from a menu of nested / overlapping / duplicate / empty prefixes for two users and allUsers; each backend's agent polled 1 s .. 20 min before the requests (or never), clock advanced by the simulator across the 5-minute window; 1..5 concurrent user requests; tracker-lookup RPC faults in a sixth of the runs. Independent specification: longest matching prefix among the user's backends, shared fallback only without a match, routed iff live; ties accept either. Also: a second lookup round for the same users and paths 10 s later, after a more specific backend was registered and polled or a backend was deleted; the platform's clean-up cron call before the lookups.",
 		Assumptions: commonAssumptions,
 		RealStub: map[string]string{
